@@ -66,6 +66,7 @@ type Ctx struct {
 	addrVals   map[string]Addr           // contract-level stand-ins for addresses of locals / elements
 	property   string                    // the property being checked (some property-derived obligations are raised only under their property)
 	heapTyp    map[string]types.Type     // field heap key -> Go type of the field (where known)
+	sweep      bool                      // zero-annotation sweep: uncontracted callees with loops are havoc
 	skipProp   func(props []string) bool // ensures clauses of other properties are not checked in this run
 }
 
@@ -3090,6 +3091,13 @@ func (fr *Frame) call(st *State, x *ssa.Call) bool {
 			}
 			return true
 		}
+	case "fmt.Errorf", "errors.New":
+		// a freshly made error is not nil (its text is opaque)
+		c.sortOf(x.Type())
+		e := c.fresh("newerr", "Iface")
+		fr.assume(st, fmt.Sprintf("(not (= %s ifnil))", e))
+		setRes(Val{e, x.Type()})
+		return true
 	case "strconv.Atoi":
 		// decimal parsing: a function of the string (atoiok: it is a decimal integer in range; atoival: its value)
 		c.sortOf(x.Call.Signature().Results().At(1).Type()) // declares the interface sort
@@ -3133,6 +3141,14 @@ func (fr *Frame) call(st *State, x *ssa.Call) bool {
 	fc := c.cs.Funcs[key]
 	if fc != nil && !fc.Pure && !fc.Trusted && fr.inCommute && callee.Blocks != nil && loopFree(callee) && fr.depth < 4 {
 		fc = nil // order-independence runs execute loop-free callees exactly (a contract would give a fresh value per call)
+	}
+	if fc == nil && c.sweep && callee.Blocks != nil && !loopFree(callee) {
+		// zero-annotation sweep: a callee with loops and no contract has unknown effects (everything it can reach is
+		// havocked, its results are arbitrary)
+		fcA := &FuncContract{Name: funcKey0(callee), Pkg: callee.Pkg.Pkg.Name(), Auto: true, LoopInv: map[int][]Clause{}, LoopDec: map[int]string{}, LoopMods: map[int][]string{}}
+		var ok3 bool
+		withPkg(fcA.Pkg, func() { ok3 = fr.applyContract(st, x, callee, fcA, key, args, setRes) })
+		return ok3
 	}
 	if fc == nil || fc.Pure {
 		// transparent
